@@ -8,6 +8,13 @@ namespace Petl.Snapshot
 open Petl.Gen
 
 def expectedC07 : List (String × String) := [
+  ("file:comparison.py", "17971f67ee946013"),
+  ("file:config.py", "142bde514c82c29d"),
+  ("file:transform/hashjoins.py", "b948265980fadaea"),
+  ("file:transform/joins.py", "bb9e0069e4d5e3a6"),
+  ("file:transform/sorts.py", "137f7e8a70e043fe"),
+  ("file:util/base.py", "771a68108eeb730d"),
+  ("file:util/lookups.py", "18ad3f3b3f749ffe"),
   ("transform.hashjoins.iterhashantijoin", "c5b36af12810a7d5"),
   ("transform.hashjoins.iterhashjoin", "e88b30071bdbfa08"),
   ("transform.hashjoins.iterhashleftjoin", "f6708e181964e9f2"),
